@@ -21,7 +21,13 @@
 #include <nop/utility/buffer_writer.h>
 
 #include <memory>
+#include <sstream>
 
+#include <nop/utility/constexpr_buffer_writer.h>
+#include <nop/utility/pedantic_buffer_reader.h>
+#include <nop/utility/pedantic_buffer_writer.h>
+#include <nop/utility/stream_reader.h>
+#include <nop/utility/stream_writer.h>
 #include "ops.h"
 
 namespace vf {
@@ -82,7 +88,7 @@ int RunTl(const std::string& op, int slot, int val) {
 
 // One codec round trip on objects owned by the calling thread; the k-th variation. |g_form| selects how the
 // Serializer / Deserializer hold their writer / reader: 0 by value, 1 by pointer, 2 by std::unique_ptr
-// (base/serializer.h has one specialization for each).
+// (base/serializer.h has one specialization for each); 3..5 other library writer / reader classes by value.
 thread_local int g_form = 0;
 template <typename T>
 void RoundTrip(const char* tid, const T& v, std::string* extra) {
@@ -108,6 +114,33 @@ void RoundTrip(const char* tid, const T& v, std::string* extra) {
     nop::Deserializer<std::unique_ptr<nop::BufferReader>> des{std::make_unique<nop::BufferReader>(buf, n)};
     st2 = des.Read(&back);
     used = n - des.reader().remaining();
+  } else if (g_form == 3) {
+    // the other library classes directly (typed block transfers reach them unchanged, no harness layer in between)
+    nop::Serializer<nop::ConstexprBufferWriter> ser{buf, sizeof buf};
+    size = ser.GetSize(v);
+    st = ser.Write(v);
+    n = ser.writer().size();
+    nop::Deserializer<nop::PedanticBufferReader> des{buf, n};
+    st2 = des.Read(&back);
+    used = n - des.reader().remaining();
+  } else if (g_form == 4) {
+    nop::Serializer<nop::PedanticBufferWriter> ser{buf, sizeof buf};
+    size = ser.GetSize(v);
+    st = ser.Write(v);
+    n = ser.writer().size();
+    nop::Deserializer<nop::BufferReader> des{buf, n};
+    st2 = des.Read(&back);
+    used = n - des.reader().remaining();
+  } else if (g_form == 5) {
+    nop::Serializer<nop::StreamWriter<std::stringstream>> ser;
+    size = ser.GetSize(v);
+    st = ser.Write(v);
+    const std::string bytes = ser.writer().stream().str();
+    n = bytes.size() < sizeof buf ? bytes.size() : sizeof buf;
+    memcpy(buf, bytes.data(), n);
+    nop::Deserializer<nop::StreamReader<std::stringstream>> des{bytes};
+    st2 = des.Read(&back);
+    used = static_cast<size_t>(des.reader().stream().tellg());
   } else {
     nop::Serializer<nop::BufferWriter> ser{buf, sizeof buf};
     size = ser.GetSize(v);
@@ -144,7 +177,16 @@ template <> struct Abs<TlLbuf, void> {
 };
 namespace {
 void RunCodec(int t, int k, std::string* extra) {
-  g_form = (k / 12 + t) % 3;
+  g_form = (k / 16 + t) % 6;
+  // four more encodings with 8-, 4- and 2-byte block elements (typed block transfers of every width reach the library
+  // classes directly in the forms above)
+  switch (k % 16) {
+    case 12: { std::vector<std::uint64_t> v; for (int i = 0; i < 2 + (k % 3); i++) v.push_back(0x0102030405060708ull * static_cast<unsigned>(t + 1) + static_cast<unsigned>(i)); RoundTrip<std::vector<std::uint64_t>>("vec<u64>", v, extra); return; }
+    case 13: { std::array<std::uint64_t, 2> a{{~0ull - static_cast<unsigned>(t), 1ull << (8 * (k % 8))}}; RoundTrip<decltype(a)>("arr<u64,2>", a, extra); return; }
+    case 14: { std::u16string u; for (int i = 0; i < 1 + (k % 4); i++) u.push_back(static_cast<char16_t>(0x4e00 + 7 * t + i)); RoundTrip<std::u16string>("str16", u, extra); return; }
+    case 15: { std::vector<std::uint32_t> v; for (int i = 0; i < 3; i++) v.push_back(0x80000000u + static_cast<unsigned>(1000 * t + i)); RoundTrip<std::vector<std::uint32_t>>("vec<u32>", v, extra); return; }
+    default: break;
+  }
   switch (k % 12) {
     case 4: { std::map<std::uint32_t, std::string> m; for (int i = 0; i < 1 + (k % 3); i++) m[static_cast<std::uint32_t>(1000 * t + i)] = std::string(static_cast<size_t>(i + 1), static_cast<char>('A' + t)); RoundTrip<std::map<std::uint32_t, std::string>>("map<u32,str8>", m, extra); return; }
     case 5: { TlTable tb; tb.e0 = static_cast<std::uint8_t>(200 + t); if (k % 2) tb.e1 = std::string("e") + static_cast<char>('0' + t); RoundTrip<TlTable>("TA", tb, extra); return; }
@@ -268,7 +310,7 @@ void CmdForms(const Json& cmd, JsonOut& o) {
   o.kv_str("e", "FORMS");
   o.key("steps");
   o.begin_arr();
-  for (int t = 0; t < 3; t++) {
+  for (int t = 0; t < 6; t++) {
     for (int k = 0; k < n; k++) {
       std::string extra;
       RunCodec(t, k, &extra);
